@@ -66,17 +66,39 @@ def observe(cfg, cdg=None):
         return case
     case["cdg"] = graph_triples(cdg.graph)
     case["cdg_nodes"] = sorted(ident(n) for n in cdg.graph.nodes)
-    obs = []
-    for n in cdg.graph.nodes:
-        try:
-            deps = sorted({(ident(d.node), bool(d.branch_value)) for d in cdg.get_control_dependencies(n)})
-            root = bool(cdg.is_control_dependent_on_root(n))
-        except Exception as e:  # noqa: BLE001
-            case["error"] = f"query:{type(e).__name__}"
-            continue
-        obs.append((ident(n), deps, root))
-    case["obs"] = sorted(obs)
+    obs, err = query_all(cdg, query_orders(cdg, len(case["nodes"]) * 7919 + len(case["edges"])))
+    if err:
+        case["error"] = err
+    case["obs"] = obs
     return case
+
+
+def query_orders(cdg, seed):
+    """Several orders in which every node of one CDG object is asked: state carried from one query
+    to the next (caches, shared visited sets) must not change any answer."""
+    import random
+
+    nodes = list(cdg.graph.nodes)
+    shuffled = nodes[:]
+    random.Random(seed).shuffle(shuffled)
+    by_id = sorted(nodes, key=ident)
+    return [nodes, nodes[::-1], shuffled, by_id, by_id[::-1]]
+
+
+def query_all(cdg, orders):
+    """Ask get_control_dependencies / is_control_dependent_on_root for every node in every given
+    order on the SAME object; returns the sorted set of distinct (node, deps, root) answers."""
+    obs, err = set(), None
+    for order in orders:
+        for n in order:
+            try:
+                deps = tuple(sorted({(ident(d.node), bool(d.branch_value)) for d in cdg.get_control_dependencies(n)}))
+                root = bool(cdg.is_control_dependent_on_root(n))
+            except Exception as e:  # noqa: BLE001
+                err = f"query:{type(e).__name__}"
+                continue
+            obs.add((ident(n), deps, root))
+    return sorted((n, list(d), r) for n, d, r in obs), err
 
 
 def extract(code):
